@@ -56,7 +56,7 @@ EXEMPT_FUNCS = {
     'ISNONTEXT', 'ISNUMBER', 'ISTEXT', 'COUNT', 'COUNTA', 'COUNTBLANK',
     'COUNTIF', 'ROW', 'COLUMN', 'FILTER', 'SUMIF', 'AVERAGEIF', 'DUMMYFUNCTION',
     'INDEX', 'MATCH', 'LOOKUP', 'VLOOKUP', 'HLOOKUP', 'ARRAY', 'ARRAYROW',
-    'SINGLE', 'TRANSPOSE',
+    'SINGLE',
 }
 EXEMPT_POS = {('IF', 1): 'cond', ('IF', 2): 'cond', ('IFS', None): 'sel',
               ('SWITCH', None): 'sel'}
